@@ -22,6 +22,7 @@ CONSTANTS Mode,      \* "axis" (laws of one axis), "pairs", "fft", "fixed" (2-D 
           Ss,        \* set of <<sn, sd>>
           Dirs,      \* subset of {1, -1}
           Partners,  \* small set of axis configurations paired with every axis configuration
+          KeyPairs,  \* "keys" mode: explicit set of <<row cfg, col cfg>>
           NQs,       \* "fixed" mode: set of <<a, b>> = n*Q = lambda z / (dx_in dx_out), same on both axes
           Slack,     \* CZT circular buffer sizes K = n + m - 1 + slack, slack \in Slack
           Pinned,    \* TRUE: the chirp-Z index arithmetic of the pinned tree (must violate CztExact)
@@ -101,6 +102,7 @@ Init ==
                             /\ req = <<0, 1>>
        [] Mode = "fft"   -> \E nr \in Ns, nc \in Ns, q \in Qs :
                                row = FftCfg(nr, q) /\ col = FftCfg(nc, q) /\ req = q
+       [] Mode = "keys"  -> \E p \in KeyPairs : row = p[1] /\ col = p[2] /\ req = <<0, 1>>
        [] Mode = "fixed" -> \E nr \in Ns, nc \in Ns, mr \in Ms, mc \in Ms, nq \in NQs, sr \in Ss, sc \in Ss :
                                row = FixedCfg(nr, mr, nq, sr) /\ col = FixedCfg(nc, mc, nq, sc) /\ req = nq
 
@@ -171,5 +173,10 @@ TransposeLaw == /\ Args(col, row).Q = SwapT(Args(row, col).Q)
 Rec == [kind |-> Mode, dir |-> dir, row |-> row, col |-> col, req |-> req,
         rowE |-> Textbook(row, dir), rowL |-> LOf(row), colE |-> Textbook(col, dir), colL |-> LOf(col),
         args |-> Args(row, col)]
-Emit == (EmitOn /\ done) => PrintT(<<"EMIT", ToJson(Rec)>>)
+\* "keys" mode also exports the kernel the matrix-DFT route is specified to build (both coordinate vectors shifted)
+RecM == [kind |-> Mode, dir |-> dir, row |-> row, col |-> col, req |-> req,
+         rowE |-> Textbook(row, dir), rowL |-> LOf(row), colE |-> Textbook(col, dir), colL |-> LOf(col),
+         rowM |-> MdftImpl(row, dir), rowL2 |-> L2Of(row), colM |-> MdftImpl(col, dir), colL2 |-> L2Of(col),
+         args |-> Args(row, col)]
+Emit == (EmitOn /\ done) => PrintT(<<"EMIT", ToJson(IF Mode = "keys" THEN RecM ELSE Rec)>>)
 =============================================================================
